@@ -16,6 +16,11 @@ int g_w_fail;		/* some write() returned < 0 */
 long g_wit_k;		/* witness stream position (free ghost) */
 int g_wit_seen;
 char g_wit_val;		/* byte observed by write() at stream position g_wit_k */
+int g_order;		/* harness tracks the order in which lines reach the stream */
+long g_pending;		/* bytes copied into the batch buffer and not yet handed to write() */
+/* the batch buffer is the object memcpy writes to (registered as g_real1 by the memcpy hook);
+ * every other buffer handed to write() in an order-tracking unit is a line */
+#define IS_LINE(p)	(!SAMEOBJ(p, g_real1))
 int g_trunc_calls;
 long g_trunc_len;
 int g_trunc_fail;
@@ -26,6 +31,8 @@ ssize_t write(int fd, const void *buf, size_t n)
 	__CPROVER_assert(n == 0 || OPAQUE(buf) || __CPROVER_r_ok(buf, n), "write: buffer readable for n bytes");
 	long r = nondet_long();
 	__CPROVER_assume(r >= -1 && r <= (long) n && (n == 0 || r != 0));
+	if (g_order && !IS_LINE(buf))
+		g_pending = 0;	/* ghost: the batch buffer is being flushed */
 	if (r < 0) {
 		g_w_fail = 1;
 	} else {
@@ -49,7 +56,7 @@ int ftruncate(int fd, off_t len)
 	return -1;
 }
 
-#define W_ENV_HAVOC() do { g_w_acc = nondet_long(); g_w_fail = nondet_int(); \
+#define W_ENV_HAVOC() do { g_w_acc = nondet_long(); g_w_fail = nondet_int(); g_order = 0; g_pending = nondet_long(); \
 	g_wit_k = nondet_long(); g_wit_seen = nondet_bool(); g_wit_val = nondet_char(); \
 	g_trunc_calls = 0; g_trunc_len = -1; g_trunc_fail = 0; } while (0)
 #define W_ENV_OK	(g_w_acc >= 0 && g_w_acc <= 0x0fffffffffffffffL && g_w_fail == 0)
@@ -58,7 +65,12 @@ int ftruncate(int fd, off_t len)
 long write_fully_contract(int fd, void *buf, long sz)
 __CPROVER_requires(sz >= 0 && sz <= MAXLINE && (OPAQUE(buf) || __CPROVER_is_fresh(buf, sz)))
 __CPROVER_requires(W_ENV_OK)
-__CPROVER_assigns(g_w_acc, g_w_fail, g_wit_val, g_wit_seen)
+/* stream order (C01): a line is handed to write() directly only while no batched bytes are
+ * pending, and the batch is flushed from its start with exactly the pending length */
+__CPROVER_requires((g_order && IS_LINE(buf)) ==> g_pending == 0)
+__CPROVER_requires((g_order && !IS_LINE(buf)) ==> (sz == g_pending && __CPROVER_POINTER_OFFSET(buf) == 0))
+__CPROVER_assigns(g_w_acc, g_w_fail, g_wit_val, g_wit_seen, g_pending)
+__CPROVER_ensures(g_pending == ((g_order && !IS_LINE(buf) && sz > 0) ? 0 : __CPROVER_old(g_pending)))
 /* all or nothing is reported */
 __CPROVER_ensures(__CPROVER_return_value == sz || __CPROVER_return_value == -1)
 /* success: exactly sz bytes were accepted, in order, no failure seen */
@@ -84,6 +96,7 @@ void h_write_fully(void)
 	long sz;
 	LB_GHOST_INIT();
 	W_ENV_HAVOC();
+	g_order = nondet_bool();
 	write_fully(fd, buf, sz);
 #ifdef CANARY
 	__CPROVER_assert(0, "canary");
@@ -96,9 +109,22 @@ void h_write_fully(void)
  * blocks (LB_OK), instantiated lazily at the line used */
 long strlen_hook(const char *s)
 {
-	if (g_wl && g_opaque_on)
-		__CPROVER_assume(s == g_wl || !__CPROVER_same_object(s, g_wl));
+	if (g_opaque_on)
+		__CPROVER_assume((g_wl && s == g_wl) || (!SAMEOBJ(s, g_wl) && !SAMEOBJ(s, g_real1) && !SAMEOBJ(s, g_real2)));
 	return (g_wl && s == g_wl) ? g_jlen : -1;
+}
+
+/* ghost: a line copied into the batch buffer is appended right after the pending bytes */
+void memcpy_hook(void *dst, const void *src, size_t n)
+{
+	if (g_order) {
+		__CPROVER_assume(!__CPROVER_same_object(src, dst));	/* a line (heap block) is never the batch buffer (stack array) */
+		__CPROVER_assert(g_real1 == 0 || __CPROVER_same_object(dst, g_real1), "stream order: there is one batch buffer");
+		g_real1 = (const char *) dst - __CPROVER_POINTER_OFFSET(dst);
+		__CPROVER_assert((long) __CPROVER_POINTER_OFFSET(dst) == g_pending,
+			"stream order: a batched line is appended directly after the bytes already pending");
+		g_pending += (long) n;
+	}
 }
 
 /* ---- lbuf_wr ---- */
@@ -115,7 +141,10 @@ __CPROVER_requires(WR_INRANGE ==> (__CPROVER_is_fresh(lbuf->ln[g_j], g_jlen + 1)
 __CPROVER_requires(g_wl == (WR_INRANGE ? lbuf->ln[g_j] : (char *) 0) && g_wit_obj == g_wl)
 __CPROVER_requires(g_opaque_on)
 __CPROVER_requires(W_ENV_OK && g_w_acc <= 0x00ffffffffffffffL && g_trunc_calls == 0)
-__CPROVER_assigns(g_w_acc, g_w_fail, g_wit_val, g_wit_seen, g_trunc_calls, g_trunc_len, g_trunc_fail)
+__CPROVER_requires(g_order && g_pending == 0)
+__CPROVER_assigns(g_w_acc, g_w_fail, g_wit_val, g_wit_seen, g_trunc_calls, g_trunc_len, g_trunc_fail, g_pending, g_real1)
+/* C01 stream order: nothing is left pending in the batch on success */
+__CPROVER_ensures(__CPROVER_return_value == 0 ==> g_pending == 0)
 __CPROVER_ensures(__CPROVER_return_value == 0 || __CPROVER_return_value == 1)
 /* C03: failure is reported iff some write failed; then the file is not truncated */
 __CPROVER_ensures((__CPROVER_return_value == 1) == (g_w_fail != 0))
@@ -136,6 +165,8 @@ void h_lbuf_wr(void)
 	g_opaque_on = 1;
 	g_wl = nondet_ptr();
 	g_wit_obj = nondet_ptr();
+	g_order = 1;
+	g_pending = 0;
 	lbuf_wr(lb, fd, beg, end);
 #ifdef CANARY
 	__CPROVER_assert(0, "canary");
